@@ -49,6 +49,7 @@ type Action struct {
 	Name   string
 	Weight int // relative weight in random mode (0 = never chosen at random, only when listed first in fair mode)
 	Fault  bool
+	Prio   int // fair mode only: lower runs first (0 = most urgent)
 	Do     func()
 }
 
@@ -112,6 +113,7 @@ type Sim struct {
 	lastRun  *Task
 	fair     bool
 	rr       int
+	rrAct    string
 	stopping int32
 	wakeCh   chan struct{}
 	start    time.Time
@@ -549,14 +551,49 @@ func (s *Sim) decideFair(ready []*Task, acts []Action) {
 		s.release(pick)
 		return
 	}
+	// round-robin over the enabled benign actions (by name, cyclically after the last one run)
+	var benign []*Action
+	minPrio := 1 << 30
 	for i := range acts {
-		if !acts[i].Fault {
-			s.Stats.EnvActions++
-			s.trace.adds("A", acts[i].Name)
-			s.current = nil
-			acts[i].Do()
-			return
+		if !acts[i].Fault && acts[i].Prio < minPrio {
+			minPrio = acts[i].Prio
 		}
+	}
+	for i := range acts {
+		if !acts[i].Fault && acts[i].Prio == minPrio {
+			benign = append(benign, &acts[i])
+		}
+	}
+	if len(benign) > 0 {
+		pick := benign[0]
+		for _, a := range benign {
+			if a.Name > s.rrAct {
+				pick = a
+				break
+			}
+		}
+		// benign is in world order, not sorted: choose the smallest name greater than rrAct
+		best := ""
+		for _, a := range benign {
+			if a.Name > s.rrAct && (best == "" || a.Name < best) {
+				best = a.Name
+				pick = a
+			}
+		}
+		if best == "" {
+			for _, a := range benign {
+				if best == "" || a.Name < best {
+					best = a.Name
+					pick = a
+				}
+			}
+		}
+		s.rrAct = pick.Name
+		s.Stats.EnvActions++
+		s.trace.adds("A", pick.Name)
+		s.current = nil
+		pick.Do()
+		return
 	}
 	// only faults enabled: treat as idle
 	s.idle(s.world)
